@@ -355,6 +355,12 @@ impl RADAU {
             }
         }
 
+        // The very first step may already reach (or pass) xend
+        if (x + h * 1.0001 - xend) * posneg >= 0.0 {
+            h = xend - x;
+            last = true;
+        }
+
         // Initial mass matrix
         f.mass(&mut mass);
 
